@@ -370,7 +370,7 @@ type c12Case struct {
 	D      H
 }
 
-var c12Transforms = []string{"sess-other", "sess-prefix", "sess-suffix", "sess-empty", "sess-index", "+1", "-1", "rand", "zero", "swap-neighbour", "other-set", "negate-point", "point+G", "shift", "shift", "swap-statement"}
+var c12Transforms = []string{"sess-other", "sess-prefix", "sess-suffix", "sess-empty", "sess-index", "+1", "-1", "rand", "zero", "neg", "swap-neighbour", "other-set", "negate-point", "point+G", "shift", "shift", "swap-statement"}
 
 func genC12(t *rapid.T) c12Case {
 	c := c12Case{Sys: rapid.SampledFrom(c12Systems).Draw(t, "sys"), Curve: rapid.SampledFrom([]string{"secp256k1", "ed25519"}).Draw(t, "curve"),
@@ -412,7 +412,7 @@ func runC12(c c12Case) ev.Outcome {
 			sess = append(append([]byte{}, sess[:len(sess)-1]...), sess[len(sess)-1]+1)
 		}
 		what = c.Tr
-	case "+1", "-1", "rand", "zero":
+	case "+1", "-1", "rand", "zero", "neg":
 		isPoint := false
 		for _, pp := range in.points {
 			if pp[0] == pos || pp[1] == pos {
@@ -444,6 +444,13 @@ func runC12(c c12Case) ev.Outcome {
 				return out
 			}
 			v[pos] = big.NewInt(0)
+		case "neg": // a scalar modulo the group order replaced by its negative
+			q := getCurve(c.Curve).Q
+			if v[pos].Sign() == 0 || v[pos].Cmp(q) >= 0 {
+				out.Skip = true
+				return out
+			}
+			v[pos] = new(big.Int).Sub(q, v[pos])
 		}
 		what = fmt.Sprintf("%s %s", in.names[pos], c.Tr)
 	case "swap-neighbour":
@@ -532,7 +539,7 @@ func runC12(c c12Case) ev.Outcome {
 		what = fmt.Sprintf("statement %s <-> %s", in.names[a], in.names[b])
 	}
 	out.Label = fmt.Sprintf("%s %s", c.Sys, c.Tr)
-	if c.Tr == "+1" || c.Tr == "-1" || c.Tr == "rand" || c.Tr == "zero" {
+	if c.Tr == "+1" || c.Tr == "-1" || c.Tr == "rand" || c.Tr == "zero" || c.Tr == "neg" {
 		kind := "proof"
 		if in.stmt[pos] {
 			kind = "statement"
@@ -580,9 +587,9 @@ func TestC12EveryIndex(t *testing.T) {
 	var cases []c12Case
 	shard, shards := ev.Shard()
 	k := 0
-	trs := []string{"+1", "swap-neighbour"}
+	trs := []string{"+1", "neg", "swap-neighbour"}
 	if ev.Tier() == "thorough" {
-		trs = []string{"+1", "-1", "zero", "rand", "swap-neighbour"}
+		trs = []string{"+1", "-1", "zero", "rand", "neg", "swap-neighbour"}
 	}
 	for _, sys := range c12Systems {
 		in := c12Build(sys, "secp256k1", 0, 1, []byte("sid-\x00\x03"))
